@@ -374,10 +374,11 @@ static int far_load(struct module_data *m, HIO_HANDLE *f, const int start)
     }
     free(patbuf);
 
-    /* Allocate tracks for any patterns referenced with a size of 0. These
-     * use the configured pattern break position, which is 64 by default. */
-    for (i = 0; i < mod->len; i++) {
-	int pat = mod->xxo[i];
+    /* Allocate tracks for any patterns with a size of 0, referenced or not
+     * (a pattern without rows must never be exposed). These use the
+     * configured pattern break position, which is 64 by default. */
+    for (i = 0; i < mod->pat; i++) {
+	int pat = i;
 	if (mod->xxp[pat]->rows == 0) {
 	    mod->xxp[pat]->rows = 64;
 	    if (libxmp_alloc_tracks_in_pattern(mod, pat) < 0)
